@@ -142,7 +142,19 @@ fn sort_value(v: serde_json::Value) -> serde_json::Value {
     use serde_json::Value::*;
     match v {
         Object(m) => {
-            let mut e: Vec<(std::string::String, serde_json::Value)> = m.into_iter().map(|(k, v)| (k, sort_value(v))).collect();
+            let mut e: Vec<(std::string::String, serde_json::Value)> = m
+                .into_iter()
+                .map(|(k, v)| {
+                    // unreal2's `mutators` is a HashSet<String>: its array has no order of its own
+                    match v {
+                        Array(mut a) if k == "mutators" && a.iter().all(|x| x.is_string()) => {
+                            a.sort_by(|x, y| x.as_str().cmp(&y.as_str()));
+                            (k, Array(a))
+                        }
+                        v => (k, sort_value(v)),
+                    }
+                })
+                .collect();
             e.sort_by(|a, b| a.0.cmp(&b.0));
             Object(e.into_iter().collect())
         }
